@@ -40,6 +40,7 @@ class Ctx:
     def __init__(self, family, loopname, tier, seed):
         self.family, self.loopname, self.tier, self.seed = family, loopname, tier, seed
         self.violations: list[dict] = []
+        self.known: list[dict] = []       # hits of predicates that may be recorded in known_findings.json (decided by c18.check)
         self.facts: dict = {}
         self.tmp = Path(__file__).resolve().parent.parent / "build" / "tmp" / f"c18-e2e-{os.getpid()}"
         self.nsock = 0
@@ -641,6 +642,204 @@ async def sc_send_lost(ctx, rng, how):
         await lst.aclose()
 
 
+async def sc_forceful_close(ctx, rng):
+    """a send() parked on back-pressure and a receive() parked; a third task closes the stream with aclose_forcefully()
+    (= aclose() in a cancelled scope) while the peer is stalled: both calls must be released promptly with
+    ClosedResourceError (finding F44: the abort of the transport must not be skipped by the cancellation)"""
+    import anyio
+    name = "forceful_close"
+    raw = ctx.family == "unix"
+    big = (8 if raw else 48) * MiB
+    params = {"big": big}
+    a, b, lst = await make_pair(ctx)
+    out = {}
+    async with anyio.create_task_group() as tg:
+        async def rcv():
+            try:
+                await a.receive()
+                out["receive"] = "returned data"
+            except Exception as e:  # noqa: BLE001
+                out["receive"] = type(e).__name__
+
+        async def snd():
+            try:
+                await a.send(pattern(0, big))
+                out["send"] = "returned normally"
+            except Exception as e:  # noqa: BLE001
+                out["send"] = type(e).__name__
+
+        tg.start_soon(rcv)
+        tg.start_soon(snd)
+        await anyio.wait_all_tasks_blocked()
+        await anyio.sleep(0.05)
+        if "send" in out:
+            ctx.fact("forceful_close_not_exhibited", True)
+        await anyio.aclose_forcefully(a)
+        t0 = time.time()
+        while len(out) < 2 and time.time() - t0 < 5:
+            await anyio.sleep(0.01)
+        for call in ("receive", "send"):
+            if call not in out:
+                ctx.viol(name, f"{call}() parked when the stream was closed with aclose_forcefully() is still blocked 5 s later "
+                               f"(peer stalled): the transport was not aborted, the descriptor stays open", params)
+            elif out[call] != "ClosedResourceError":
+                ctx.viol(name, f"{call}() parked at aclose_forcefully() ended with: {out[call]} (expected ClosedResourceError)", params)
+        tg.cancel_scope.cancel()
+    ctx.fact("forceful_close", [out.get("receive"), out.get("send")])
+    await b.aclose()
+    if lst is not None:
+        await lst.aclose()
+
+
+async def sc_send_timeouts(ctx, rng):
+    """the peer is stalled; the writer guards every send() of a 1 MB message with a short timeout (60 of them): what the
+    stream accepts must stay bounded by the kernel buffers plus one message (finding F45: after a cancelled send() every
+    further send() must wait for the leftover data to drain BEFORE queueing more)"""
+    import anyio
+    name = "send_timeouts"
+    raw = ctx.family == "unix"
+    n, size = 60, 1_000_000
+    bound = (4 if raw else 16) * MiB + size
+    params = {"sends": n, "size": size, "bound": bound}
+    a, b, lst = await make_pair(ctx)
+    completed = 0
+    max_wbuf = 0
+    with anyio.move_on_after(60) as scope:
+        for i in range(n):
+            with anyio.move_on_after(0.02):
+                await a.send(bytes([i]) * size)
+                completed += 1
+            max_wbuf = max(max_wbuf, wbuf(a))
+        # now let the peer read everything that was accepted
+        got = 0
+        async with anyio.create_task_group() as tg:
+            async def closer():
+                await anyio.sleep(0.3)
+                await a.aclose()
+            tg.start_soon(closer)
+            while True:
+                try:
+                    got += len(await b.receive(1 << 20))
+                except (anyio.EndOfStream, anyio.BrokenResourceError, anyio.ClosedResourceError):
+                    break
+    if scope.cancelled_caught:
+        ctx.viol(name, "deadlock/timeout in send_timeouts scenario", params)
+    else:
+        if max_wbuf > size:
+            ctx.viol(name, f"unbounded buffering: the transport's user-space write buffer grew to {max_wbuf} bytes over {n} sends of "
+                           f"{size} bytes that timed out against a stalled peer (more than one send() buffered)", params)
+        if got > bound:
+            ctx.viol(name, f"unbounded buffering: {got} bytes were accepted from a writer whose {n} sends (all but {completed} timed out) "
+                           f"faced a stalled peer (bound {bound})", params)
+    ctx.fact("send_timeouts", {"completed": completed, "max_write_buffer": max_wbuf, "peer_received": got})
+    await b.aclose()
+    if lst is not None:
+        await lst.aclose()
+
+
+async def sc_close_unread_inbound(ctx, rng, unread):
+    """request/response with a slow reader (TCP): the responder reads the request, sends 3 MB and closes; the requester
+    starts reading 0.5 s later and must get all 3 MB, then EndOfStream.  unread=True: the requester has meanwhile sent
+    a few more bytes the responder never reads (known finding F48, predicate close_with_unread_inbound_resets: the kernel
+    answers the close with a reset that destroys the responder's send queue).  unread=False is the control."""
+    import anyio
+    name = f"close_unread_inbound/{'unread' if unread else 'control'}"
+    total = 3_000_000
+    params = {"total": total, "unread_inbound": unread}
+    a, b, lst = await make_pair(ctx)          # a = requester, b = responder
+    res = {}
+    with anyio.move_on_after(30) as scope:
+        async with anyio.create_task_group() as tg:
+            async def responder():
+                req = b""
+                while not req.endswith(b"\r\n"):
+                    req += await b.receive(100)
+                await anyio.sleep(0.15)                       # (the extra bytes arrive and stay unread)
+                await b.send(pattern(0, total))
+                await b.aclose()
+                res["responder"] = "done"
+            tg.start_soon(responder)
+            await a.send(b"GET /big\r\n")
+            await anyio.sleep(0.05)
+            if unread:
+                await a.send(b"PING\r\n")
+            await anyio.sleep(0.5)
+            rc = Receiver(ctx, name, a, [65536], params)
+            try:
+                await rc.drain()
+            except anyio.BrokenResourceError:
+                rc.ended = "BrokenResourceError"
+            res["got"], res["ended"] = rc.off, rc.ended
+    if scope.cancelled_caught:
+        ctx.viol(name, f"deadlock/timeout: requester got {res.get('got')} of {total}", params)
+    elif res.get("got") != total or res.get("ended") != "eof":
+        what = (f"the peer of a stream that sent {total} bytes and closed received {res.get('got')} bytes and then "
+                f"{'EndOfStream' if res.get('ended') == 'eof' else res.get('ended')}")
+        if unread and res.get("got", 0) <= total and rc.ok:
+            ctx.known.append({"predicate": "close_with_unread_inbound_resets", "scenario": name, "detail": what, "params": params})
+        else:
+            ctx.viol(name, what + (" although the closing side had NO unread inbound data" if not unread else ""), params)
+    ctx.fact("close_unread_inbound", [unread, res.get("got"), res.get("ended")])
+    await a.aclose()
+    if lst is not None:
+        await lst.aclose()
+
+
+async def sc_observations(ctx, rng):
+    """behaviour outside the clause texts of C18: recorded, never flagged"""
+    import anyio
+    import struct
+    obs = ctx.facts.setdefault("observations", {})
+    # (1) peer reset after partial data while no receive() is waiting
+    if ctx.family == "tcp":
+        ml = await anyio.create_tcp_listener(local_host="127.0.0.1")
+        port = ml.extra(anyio.abc.SocketAttribute.local_port)
+        peer = socket.create_connection(("127.0.0.1", port))      # a plain socket: reset without a FIN
+        a = await ml.listeners[0].accept()
+        try:
+            peer.sendall(pattern(0, 100000))
+            await anyio.sleep(0.05)
+            peer.setsockopt(socket.SOL_SOCKET, socket.SO_LINGER, struct.pack("ii", 1, 0))
+            peer.close()
+            await anyio.sleep(0.1)
+            got, end = 0, None
+            with anyio.move_on_after(5):
+                while True:
+                    try:
+                        got += len(await a.receive())
+                    except anyio.EndOfStream:
+                        end = "EndOfStream"
+                        break
+                    except anyio.BrokenResourceError:
+                        end = "BrokenResourceError"
+                        break
+            obs["peer_reset_after_partial_data_no_receive_waiting"] = f"{got} bytes then {end}"
+        except Exception as e:  # noqa: BLE001
+            obs["peer_reset_after_partial_data_no_receive_waiting"] = f"probe failed: {type(e).__name__}"
+        await a.aclose()
+        await ml.aclose()
+    # (2)-(4) calls on a locally closed stream / absurd max_bytes
+    a, b, lst = await make_pair(ctx)
+    if ctx.family == "unix":
+        try:
+            await a.receive(2 ** 40)
+            obs["receive(2**40)"] = "returned"
+        except BaseException as e:  # noqa: BLE001
+            obs["receive(2**40)"] = type(e).__name__
+            if isinstance(e, anyio.get_cancelled_exc_class()):
+                raise
+    await a.aclose()
+    for label, call in (("send(b'') on a closed stream", lambda: a.send(b"")), ("send_eof() on a closed stream", a.send_eof)):
+        try:
+            await call()
+            obs[label] = "returned normally"
+        except Exception as e:  # noqa: BLE001
+            obs[label] = type(e).__name__
+    await b.aclose()
+    if lst is not None:
+        await lst.aclose()
+
+
 async def sc_close_pending(ctx, rng):
     """a receive() that is blocked when another task closes the stream locally ends with ClosedResourceError
     (the transport's connection_lost / the readiness future wakes it): it does not hang"""
@@ -689,12 +888,17 @@ async def main(ctx: Ctx, only=None):
         plan += [("duplex", sc_duplex, ()), ("close", sc_close, ("a closes",)), ("close", sc_close, ("b closes",)),
                  ("busy", sc_busy, ()), ("close_pending", sc_close_pending, ()),
                  ("eof_during_send", sc_eof_during_send, ()), ("close_both_parked", sc_close_both_parked, ()),
-                 ("send_lost", sc_send_lost, ("local_close",)), ("send_lost", sc_send_lost, ("peer_reset",))]
+                 ("send_lost", sc_send_lost, ("local_close",)), ("send_lost", sc_send_lost, ("peer_reset",)),
+                 ("forceful_close", sc_forceful_close, ())]
     for d in ("a->b", "b->a"):
         for mode in ("idle", "late_first_receive", "cancelled_receive"):
             if ctx.tier == "quick" and (d, mode) in (("a->b", "idle"), ("b->a", "late_first_receive")):
                 continue
             plan.append(("backpressure", sc_backpressure, (d, mode)))
+    plan.append(("send_timeouts", sc_send_timeouts, ()))
+    plan.append(("observations", sc_observations, ()))
+    if ctx.family == "tcp":
+        plan += [("close_unread_inbound", sc_close_unread_inbound, (False,)), ("close_unread_inbound", sc_close_unread_inbound, (True,))]
     for nm, fn, args in plan:
         if only and nm != only:
             continue
@@ -718,5 +922,5 @@ if __name__ == "__main__":
         anyio.run(main, ctx, only, backend="asyncio", backend_options={"use_uvloop": loopname == "uvloop"})
     finally:
         shutil.rmtree(ctx.tmp, ignore_errors=True)
-    print(json.dumps({"config": [family, loopname], "violations": ctx.violations, "facts": ctx.facts,
+    print(json.dumps({"config": [family, loopname], "violations": ctx.violations, "known": ctx.known, "facts": ctx.facts,
                       "anyio_file": anyio.__file__}))
